@@ -49,7 +49,12 @@ def represent(X, r, offset=0):
     idx = D.build_index(r["index"], n + offset)[offset:]
     if r["container"] == "Series":
         return pd.Series(arr[:, 0], index=idx, name=None if r["columns"] == "default" else D.column_labels(r["columns"], 1)[0])
-    return pd.DataFrame(arr, index=idx, columns=D.column_labels(r["columns"], p))
+    df = pd.DataFrame(arr, index=idx, columns=D.column_labels(r["columns"], p))
+    j = r.get("bool_col")
+    if j is not None and set(np.unique(arr[:, j])) <= {0, 1}:
+        # the indicator column as bool next to numeric columns (built column by column: labels may repeat)
+        df = pd.concat([df.iloc[:, [c]].astype(bool) if c == j else df.iloc[:, [c]] for c in range(p)], axis=1)
+    return df
 
 
 def own_index(r, n):
@@ -131,7 +136,17 @@ def cases(draw, tier, det):
                 and draw(st.integers(0, 2)) == 0:
             r["columns"] = "rev:" + fit_r["columns"]  # the training labels in the opposite order: data are matched by position
         case["reprs"][ep] = r
+    # an indicator variable (0 / 1, e.g. "valve open") among the columns: a bool column in a DataFrame, floats in the canonical run
+    indicator = {"col": draw(st.integers(0, p - 1)), "at": draw(st.integers(1, max(1, n - 1)))} \
+        if p >= 2 and draw(st.integers(0, 5)) == 0 else None
     case["X"], _ = draw(D.structured_matrix(n, p, exact=integral, boundary_positions=(bw, n - bw)))
+    if indicator:
+        case["indicator"] = indicator
+        for i, row in enumerate(case["X"]):
+            row[indicator["col"]] = 1.0 if i >= indicator["at"] else 0.0
+        for r_ in case["reprs"].values():
+            if r_["container"] == "DataFrame":
+                r_["bool_col"] = indicator["col"]
     if n2 is not None and "update_plan" in case:
         case["updates"] = []
         for u in case.pop("update_plan"):
@@ -207,8 +222,12 @@ def check(case):
         if "positive definite" in str(e):
             return {"nontrivial": False, "classes": ["not_pd_error_in_canonical_run"]}
         raise Violation(f"unexpected RuntimeError in the canonical run: {e}")
-    with sut(f"{name} run with generated representations"):
-        got = run_history(case, False)
+    try:
+        with sut(f"{name} run with generated representations", allowed=(TypeError, ValueError) if case.get("indicator") else ()):
+            got = run_history(case, False)
+    except (TypeError, ValueError):
+        # C11 names integer and float data: rejecting a bool column with an error would be legitimate - silently different results are not
+        return {"nontrivial": False, "classes": ["bool_column_rejected"]}
     for key in ("threshold_", "penalty_", "collective_penalty_", "point_penalty_"):
         if key in want and abs(want[key] - got.get(key, float("nan"))) > 1e-9 * (1 + abs(want[key])):
             raise Violation(f"fitted {key} depends on the representation of the training data", canonical=want[key],
@@ -259,6 +278,8 @@ def check(case):
         classes.append(f"columns={kind}")
     if any(v.startswith("rev:") for v in frames.values()):
         classes.append("same_labels_other_order_than_fit")
+    if case.get("indicator") and any(r.get("bool_col") is not None for r in R.values()):
+        classes.append("bool_indicator_column")
     has_event = bool(want["predict"]["events"])
     if has_event:
         classes.append("has_detection")
